@@ -52,7 +52,7 @@ fn strategy(tier: Tier) -> BoxedStrategy<Case> {
             Just(AggKind::Refs),
         ],
         proptest::collection::vec(prop_oneof![1 => Just(0u64), 1 => Just(1u64), 8 => 0u64..250], 1..6),
-        proptest::collection::vec(0usize..14, 1..5),
+        proptest::collection::vec(prop_oneof![12 => 0usize..14, 1 => Just(usize::MAX), 1 => Just(usize::MAX - 1), 1 => Just(isize::MAX as usize + 1), 1 => Just(u32::MAX as usize)], 1..5),
     )
         .prop_map(|(comps, kind, deltas, limits)| Case { comps, kind, deltas, limits })
         .boxed()
